@@ -168,4 +168,15 @@ REGISTRY = {
                       'the table-proved involution; the Lean lemma links per-iteration facts to all segmentations.',
         'explanation': 'websocket codec contracts discharged by z3/cvc5',
     },
+    'C19': {
+        'modules': ['contracts.node'], 'level': 'proof',
+        'level_text': 'PARTIAL: add_buffer/__process_packet absorb every byte string; firewalls: a refused event is never transmitted '
+                      '(send) nor dispatched (__process_packet_call), on every path; every event attribute the dispatching core reads is '
+                      'excluded from peer metadata (structural obligation recomputed from the ASTs on every run). Bounded stand-ins '
+                      '(labelled): JSON round trip, hostile packet grammar against a live loop.',
+        'level_note': 'not decided: "executed exactly once on the peer and the result comes back" (two-party protocol over two loops); '
+                      'JSON itself trusted; load_event/firewall/dump_event by their contracts.',
+        'explanation': 'node protocol contracts discharged by z3 + AST obligations; serialisation and hostile grammar bounded',
+        'not_decided': ['remote execution exactly once with result return (two-party protocol)', 'JSON round trip beyond the bounded grammar'],
+    },
 }
